@@ -267,6 +267,10 @@ var comboCheck = &core.Check{Name: "c04/combinators", Quick: 4000, Thorough: 300
 		b.Bit(false).U(uint64(v.G.Value), 16)
 	}
 	v.H = tlb.Unary(c.Range("H", 0, 40))
+	if c.Intn("H.long", 5) == 0 {
+		v.H = tlb.Unary(c.OneOf("H.v", 62, 63, 64, 65, 66, 127, 128, 129, 300, 600))
+		c.Class("unary value of 62 or more")
+	}
 	b.Unary(int(v.H))
 	v.I = c.Bool("I")
 	b.Bit(v.I)
